@@ -346,7 +346,9 @@ int main() {
     auto fdev = loop->newFdEvent("verif-driver");
     fdev->initialize(efd, event::FdEvent::kReadEvent, event::Event::Mode::kPersist);
     bool pending = false, settle_pending = false; std::string pending_rets;
+    int settle_wait = 0;        // `settle`: loop passes still to run (without reading an op) before the check
     fdev->setCallback([&](short) {
+        if (settle_wait > 0) { --settle_wait; return; }
         if (pending) {
             if (xexec) std::cout << "P x r=" << pending_rets << " cur=" << xexec->current() << " st=" << xsnapshot() << "\n";
             else if (free_mode) { std::cout << "B r=" << pending_rets << " s=" << snapshot() << "\n"; check_quiescent(); check_last_call(); if (settle_pending) check_settled(); std::cout << "P free\n"; }
@@ -456,7 +458,8 @@ int main() {
             free_mode = true;
             pending_rets = "-"; pending = true;
         } else if (w[0] == "settle" && w.size() == 1 && free_mode) {
-            pending_rets = "-"; pending = true; settle_pending = true;
+            // every level of the tree needs one pass to hand its notification up: let the queue drain first
+            pending_rets = "-"; pending = true; settle_pending = true; settle_wait = 2 * (int)nodes.size() + 4;
         } else if (w[0] == "cb" && w.size() >= 3 && w.size() <= 8 && (w[1] == "final" || w[1] == "fin" || w[1] == "blk")) {
             std::vector<Call> cs;
             for (size_t i = 2; i < w.size(); ++i) { Call c; if (!parse_call(w[i], c) || c.kind == 5) { std::cout << "bad-op\n"; return; } cs.push_back(c); }
